@@ -1969,6 +1969,9 @@ func c06HistInterp(t *testing.T, c hCase) (v kit.Verdict) {
 			if w <= 0 {
 				r.classes["cluster-node-without-weight"] = true
 			}
+			if total == 1 {
+				r.classes["total-weight-1"] = true
+			}
 		}
 		flights := syncx.NewSingleFlight() // of the instances the caller builds from cache.New / cache.NewNode
 		var lastRds *redis.Redis
@@ -2278,7 +2281,7 @@ func c06HistGen(rt *rapid.T) hCase {
 	}
 	nn := rapid.SampledFrom([]int{1, 1, 2, 3}).Draw(rt, "nodes")
 	for i := 0; i < nn; i++ {
-		c.Weights = append(c.Weights, rapid.SampledFrom([]int{10, 50, 100}).Draw(rt, "weight"))
+		c.Weights = append(c.Weights, rapid.SampledFrom([]int{10, 50, 100, 10, 50, 100, 1, 2, 99, 101, 1000}).Draw(rt, "weight"))
 	}
 	if nn > 1 && rapid.IntRange(0, 7).Draw(rt, "weightless") == 0 {
 		// a configured node without weight (it gets no keys)
